@@ -96,6 +96,12 @@ def sym_run(name, make, pre, body, post, case_of, scenarios=None,
         if not eng.setup(declare):
             res["error"] = "vacuous precondition (unsat/unknown at depth 0)"
             return res
+        if os.environ.get("VERIF_DRY"):
+            # development aid: only build the job and decide its precondition at depth 0 (validates job lists)
+            res["notes"].append("dry run: precondition satisfiable, nothing explored")
+            res["complete"] = False
+            set_engine(None)
+            return res
 
         def run(e):
             inp = make(e)
